@@ -6,8 +6,8 @@ namespace Shutdown
 
 /-! ### measure -/
 
-theorem wsμ_set (cfg : Cfg) (ws : List W) (i : Nat) (w w' : W) (h : ws[i]? = some w)
-    (hlt : wμ cfg w'.st < wμ cfg w.st) : wsμ cfg (ws.set i w') < wsμ cfg ws := by
+theorem wsμ_set (cfg : Cfg) (ws : List W) (i : Nat) (w w' : W) (k : Nat) (h : ws[i]? = some w)
+    (hlt : wμ cfg w'.st + k < wμ cfg w.st) : wsμ cfg (ws.set i w') + k < wsμ cfg ws := by
   induction ws generalizing i with
   | nil => simp at h
   | cons x xs ih =>
@@ -35,48 +35,53 @@ theorem moveTo_le (cfg : Cfg) (prog : List BP) (avail : Nat) (mv : Move) (st' : 
         simp at h; subst h; simp [wμ, hq]
       · split at h
         · rename_i hq hpos
-          simp at h; subst h; simp [wμ, hq]; omega
+          simp at h; subst h; simp only [wμ, hq, if_false]; split <;> omega
         · simp at h
     · simp at h
 
 theorem after_lt (cfg : Cfg) (prog : List BP) (st st' : WSt) (mv : Move)
-    (h : after cfg true prog st mv = some st') : wμ cfg st' < wμ cfg st := by
+    (h : after cfg true prog st mv = some st') : wμ cfg st' + stSpawns st < wμ cfg st := by
   cases st with
   | idle =>
     simp only [after] at h
     have := moveTo_le cfg _ _ _ _ h
     have e : wμ cfg .idle = 2 * cfg.budget + 3 := rfl
-    rw [e]; omega
+    rw [e]; simp only [stSpawns]; omega
   | done => simp [after] at h
   | «at» p left =>
     cases p with
-    | errSend => simp [after] at h; subst h; simp [wμ]
-    | ctxSelect => simp [after] at h; subst h; simp [wμ]
+    | errSend => simp [after] at h; subst h; simp [wμ, stSpawns]
+    | ctxSelect => simp [after] at h; subst h; simp [wμ, stSpawns]
+    | spawn =>
+      simp only [after] at h
+      have := moveTo_le cfg _ _ _ _ h
+      have e : wμ cfg (.at .spawn left) = 2 * left + 3 := by simp [wμ]
+      rw [e]; simp only [stSpawns]; omega
     | sleep b =>
       simp only [after] at h
       have := moveTo_le cfg _ _ _ _ h
       have e : wμ cfg (.at (.sleep b) left) = 2 * left + 2 := by simp [wμ]
-      rw [e]; omega
+      rw [e]; simp only [stSpawns]; omega
     | send ch g =>
       simp only [after] at h
       have := moveTo_le cfg _ _ _ _ h
       have e : wμ cfg (.at (.send ch g) left) = 2 * left + 2 := by simp [wμ]
-      rw [e]; omega
+      rw [e]; simp only [stSpawns]; omega
     | recv ch g =>
       simp only [after] at h
       have := moveTo_le cfg _ _ _ _ h
       have e : wμ cfg (.at (.recv ch g) left) = 2 * left + 2 := by simp [wμ]
-      rw [e]; omega
+      rw [e]; simp only [stSpawns]; omega
     | lock m f =>
       simp only [after] at h
       have := moveTo_le cfg _ _ _ _ h
       have e : wμ cfg (.at (.lock m f) left) = 2 * left + 2 := by simp [wμ]
-      rw [e]; omega
+      rw [e]; simp only [stSpawns]; omega
     | join ok =>
       simp only [after] at h
       have := moveTo_le cfg _ _ _ _ h
       have e : wμ cfg (.at (.join ok) left) = 2 * left + 2 := by simp [wμ]
-      rw [e]; omega
+      rw [e]; simp only [stSpawns]; omega
 
 theorem step_cancelled (cfg : Cfg) (s s' : St) (a : Act) (hc : s.cancelled = true)
     (h : step cfg s a = some s') : s'.cancelled = true := by
@@ -103,6 +108,7 @@ theorem step_cancelled (cfg : Cfg) (s s' : St) (a : Act) (hc : s.cancelled = tru
   | runParent => simp only [step] at h; split at h <;> simp at h; subst h; rfl
   | join => simp only [step] at h; split at h <;> simp at h; subst h; exact hc
   | parentCancel => simp only [step] at h; split at h <;> simp at h; subst h; exact hc
+  | orphanExit => simp only [step] at h; split at h <;> simp at h; subst h; exact hc
 
 /-- after cancel EVERY action (the environment's included) strictly decreases the measure -/
 theorem step_decreases (cfg : Cfg) (s s' : St) (a : Act) (hc : s.cancelled = true)
@@ -120,7 +126,7 @@ theorem step_decreases (cfg : Cfg) (s s' : St) (a : Act) (hc : s.cancelled = tru
           simp at h; subst h
           rw [hc] at hst
           have h1 := after_lt cfg _ _ _ _ hst
-          have := wsμ_set cfg s.ws i w { w with st := st' } hw h1
+          have := wsμ_set cfg s.ws i w { w with st := st' } (stSpawns w.st) hw h1
           simp only [μ]; omega
       · simp at h
   | elapse i mv =>
@@ -135,10 +141,10 @@ theorem step_decreases (cfg : Cfg) (s s' : St) (a : Act) (hc : s.cancelled = tru
         · rename_i st' hmv
           simp at h; subst h
           have h0 := moveTo_le cfg _ _ _ _ hmv
-          have h1 : wμ cfg st' < wμ cfg w.st := by
+          have h1 : wμ cfg st' + 0 < wμ cfg w.st := by
             have e : wμ cfg (.at (.sleep false) left) = 2 * left + 2 := by simp [wμ]
             rw [hst, e]; omega
-          have := wsμ_set cfg s.ws i w { w with st := st' } hw h1
+          have := wsμ_set cfg s.ws i w { w with st := st' } 0 hw h1
           simp only [μ]; omega
       · simp at h
   | runErr =>
@@ -168,6 +174,13 @@ theorem step_decreases (cfg : Cfg) (s s' : St) (a : Act) (hc : s.cancelled = tru
     · rename_i hp
       simp at h; subst h
       simp [μ, hp]
+    · simp at h
+  | orphanExit =>
+    simp only [step] at h
+    split at h
+    · rename_i hp
+      simp at h; subst h
+      simp only [μ]; omega
     · simp at h
 
 theorem exec_cancelled (cfg : Cfg) (as : List Act) (s s' : St) (hc : s.cancelled = true)
@@ -214,6 +227,7 @@ structure Inv (cfg : Cfg) (progs : List (List BP)) (s : St) : Prop where
   atIn : ∀ w ∈ s.ws, ∀ p left, w.st = .at p left → p ∈ w.prog
   phase : s.cancelled = true → s.phase ≠ .waiting
   err : noPlainErr progs = true ∨ errLive s.ws + s.lvl .errCh ≤ cfg.cap .errCh
+  orph : s.orphans = 0
 
 theorem errLive_init (progs : List (List BP)) :
     errLive (progs.map fun p => ({ prog := p, st := .idle } : W)) = errSenders progs := by
@@ -226,7 +240,7 @@ theorem errLive_init (progs : List (List BP)) :
 
 theorem inv_init (cfg : Cfg) (progs : List (List BP)) (hs : safeTable cfg progs = true) :
     Inv cfg progs (initSt progs) := by
-  refine ⟨?_, ?_, ?_, ?_⟩
+  refine ⟨?_, ?_, ?_, ?_, rfl⟩
   · intro w hw
     simp only [initSt, List.mem_map] at hw
     obtain ⟨p, hp, rfl⟩ := hw
@@ -277,6 +291,7 @@ theorem after_mem (cfg : Cfg) (c : Bool) (prog : List BP) (st : WSt) (mv : Move)
     | recv ch g => exact moveTo_mem _ _ _ _ _ h
     | lock m f => exact moveTo_mem _ _ _ _ _ h
     | join ok => exact moveTo_mem _ _ _ _ _ h
+    | spawn => exact moveTo_mem _ _ _ _ _ h
 
 theorem countP_set_le {α} (p : α → Bool) (l : List α) (i : Nat) (a : α) (hi : i < l.length)
     (h : p a = true → p l[i] = true) : List.countP p (l.set i a) ≤ List.countP p l := by
@@ -369,6 +384,7 @@ theorem opEffect_err (cfg : Cfg) (lvl : Chan → Nat) (p : BP) (hp : p ≠ .errS
     · exact Nat.le_refl _
   | lock m f => simp [opEffect]
   | join ok => simp [opEffect]
+  | spawn => simp [opEffect]
 
 theorem inv_step (cfg : Cfg) (progs : List (List BP)) (hs : safeTable cfg progs = true)
     (s s' : St) (a : Act) (hinv : Inv cfg progs s) (h : step cfg s a = some s') : Inv cfg progs s' := by
@@ -390,7 +406,24 @@ theorem inv_step (cfg : Cfg) (progs : List (List BP)) (hs : safeTable cfg progs 
         · simp at h
         · rename_i st' hst
           simp at h; subst h
-          refine ⟨?_, ?_, hinv.phase, ?_⟩
+          refine ⟨?_, ?_, hinv.phase, ?_, ?_⟩
+          rotate_right
+          · -- no orphan is created: a `spawn` point would be an unguarded point of the table
+            simp only
+            have h0 : stSpawns w.st = 0 := by
+              cases hcur : w.st with
+              | idle => rfl
+              | done => rfl
+              | «at» p left =>
+                cases p with
+                | spawn =>
+                  have hpin := hinv.atIn w hwm _ left hcur
+                  have hprog := hinv.progsOf w hwm
+                  simp only [safeTable, Bool.and_eq_true, List.all_eq_true] at hs
+                  have := hs.1 _ hprog _ hpin
+                  simp [BP.guarded] at this
+                | _ => rfl
+            rw [h0, hinv.orph]
           · intro x hx
             rcases List.mem_or_eq_of_mem_set hx with hx | hx
             · exact hinv.progsOf x hx
@@ -456,7 +489,7 @@ theorem inv_step (cfg : Cfg) (progs : List (List BP)) (hs : safeTable cfg progs 
         · simp at h
         · rename_i st' hmv
           simp at h; subst h
-          refine ⟨?_, ?_, hinv.phase, ?_⟩
+          refine ⟨?_, ?_, hinv.phase, ?_, hinv.orph⟩
           · intro x hx
             rcases List.mem_or_eq_of_mem_set hx with hx | hx
             · exact hinv.progsOf x hx
@@ -479,7 +512,7 @@ theorem inv_step (cfg : Cfg) (progs : List (List BP)) (hs : safeTable cfg progs 
     simp only [step] at h
     split at h
     · simp at h; subst h
-      refine ⟨hinv.progsOf, hinv.atIn, by simp, ?_⟩
+      refine ⟨hinv.progsOf, hinv.atIn, by simp, ?_, hinv.orph⟩
       rcases hinv.err with he | he
       · exact Or.inl he
       · right; simp only [dec]; simp; omega
@@ -488,19 +521,26 @@ theorem inv_step (cfg : Cfg) (progs : List (List BP)) (hs : safeTable cfg progs 
     simp only [step] at h
     split at h
     · simp at h; subst h
-      exact ⟨hinv.progsOf, hinv.atIn, by simp, hinv.err⟩
+      exact ⟨hinv.progsOf, hinv.atIn, by simp, hinv.err, hinv.orph⟩
     · simp at h
   | join =>
     simp only [step] at h
     split at h
     · simp at h; subst h
-      exact ⟨hinv.progsOf, hinv.atIn, by simp, hinv.err⟩
+      exact ⟨hinv.progsOf, hinv.atIn, by simp, hinv.err, hinv.orph⟩
     · simp at h
   | parentCancel =>
     simp only [step] at h
     split at h
     · simp at h; subst h
-      exact ⟨hinv.progsOf, hinv.atIn, hinv.phase, hinv.err⟩
+      exact ⟨hinv.progsOf, hinv.atIn, hinv.phase, hinv.err, hinv.orph⟩
+    · simp at h
+  | orphanExit =>
+    simp only [step] at h
+    split at h
+    · rename_i hp
+      rw [hinv.orph] at hp
+      exact absurd hp (Nat.lt_irrefl 0)
     · simp at h
 
 theorem inv_reach (cfg : Cfg) (progs : List (List BP)) (hs : safeTable cfg progs = true) (s : St)
@@ -552,7 +592,7 @@ theorem progress (cfg : Cfg) (progs : List (List BP)) (hs : safeTable cfg progs 
     have hph : s.phase = .joining := by
       have h1 := hinv.phase hc
       have h2 : s.phase ≠ .returned := by
-        intro h; simp [finished, had, h] at hnf
+        intro h; simp [finished, had, h, hinv.orph] at hnf
       cases hp : s.phase with
       | waiting => exact absurd hp h1
       | joining => rfl
@@ -578,6 +618,7 @@ theorem progress (cfg : Cfg) (progs : List (List BP)) (hs : safeTable cfg progs 
         | recv ch g => simp only [BP.guarded] at hg; simp [opEnabled, hg]
         | lock m f => simpa [BP.guarded, opEnabled] using hg
         | join ok => simpa [BP.guarded, opEnabled] using hg
+        | spawn => rfl
         | errSend =>
           simp only [opEnabled, decide_eq_true_eq]
           rcases hinv.err with he | he
@@ -593,7 +634,8 @@ theorem progress (cfg : Cfg) (progs : List (List BP)) (hs : safeTable cfg progs 
               rw [Bool.and_eq_true]
               exact ⟨by rw [hst]; rfl, List.contains_iff_mem.mpr hpin⟩
             omega
-    refine ⟨.work i .ret, { s with ws := s.ws.set i { w with st := .done }, lvl := stEffect cfg s.lvl w.st }, rfl, ?_⟩
+    refine ⟨.work i .ret, { s with ws := s.ws.set i { w with st := .done }, lvl := stEffect cfg s.lvl w.st,
+                                   orphans := s.orphans + stSpawns w.st }, rfl, ?_⟩
     simp only [step, hi, hen, hc, after_ret cfg w.prog w.st hw]
     rfl
 
@@ -662,6 +704,7 @@ theorem sleep_parked_step (cfg : Cfg) (s s' : St) (i : Nat) (w : W) (left : Nat)
         · simp at h
   | elapse j mv => simp [Act.isEnv] at ha
   | parentCancel => simp [Act.isEnv] at ha
+  | orphanExit => simp [Act.isEnv] at ha
   | runErr =>
     simp only [step] at h
     split at h
